@@ -8,7 +8,7 @@ run the quick check of the property it targets (and, with --all, every quick che
 
 usage: tools/seeded.py [--all] [--tier=thorough] [--repo=<scratch worktree>] [name ...]
 With --repo the patches are applied to that scratch checkout instead of /repo and the checks are pointed at it
-(VERIF_REPO / PYTHONPATH); README.md is only rewritten by a run over all changes against /repo itself.
+(VERIF_REPO / PYTHONPATH), so that /repo itself stays untouched; README.md is rewritten by a run over all changes.
 """
 import glob
 import json
@@ -79,7 +79,7 @@ def main():
         "(pinned tests pass with the change; the demonstration fails with it and passes without). None of them is ever",
         "committed to /repo. Regenerate this table with `tools/seeded.py` (applies each patch, runs the checks, reverts).",
         "",
-        f"Tier used for this table: {tier}.",
+        f"Tier used for this table: {tier}. Patches were applied to {'a scratch worktree of /repo at the same HEAD (' + REPO + ')' if scratch else '/repo itself'}.",
         "",
         "| seeded change | property | what it needs to manifest | pinned tests with the change | demo exit (with change) | caught by (exit 1 = VIOLATION) | first signature |",
         "|---|---|---|---|---|---|---|",
@@ -88,7 +88,7 @@ def main():
         c = ", ".join(f"{k}: exit {v['rc']} ({v['violation_classes']} classes)" for k, v in caught.items())
         sig = next((v["first_signature"] for v in caught.values() if v["first_signature"]), "")
         lines.append(f"| {name} | {meta['property']} | {meta.get('needs', '')} | {tests} | {demo} | {c} | `{sig}` |")
-    if not args and not scratch:
+    if not args:
         open(os.path.join(VERIF, "seeded", "README.md"), "w").write("\n".join(lines) + "\n")
     missed = [r[0] for r in rows if r[3] and not any(v["rc"] == 1 for v in r[3].values())]
     print("missed:", missed)
